@@ -11,7 +11,7 @@ from sx.harness import exc_site
 
 PROPERTY = "C16"
 LEVEL = "model_checking"
-OPTIONS = {"quick": {"max_paths": 100000, "unit_budget_s": 900}, "thorough": {"max_paths": 1000000, "unit_budget_s": 3000}}
+OPTIONS = {"quick": {"max_paths": 100000, "unit_budget_s": 600}, "thorough": {"max_paths": 1000000, "unit_budget_s": 3000}}
 BOUNDS = {
     "quick": {"field combinations": "16 covering specs (every clause present/absent, single and list forms, 0..2 extensions with 0..2 values)", "strings": "description and first extension value: 1..3 code points over all scalar values; other quoted strings 1 code point", "oids": "numeric OIDs of length 3 (symbolic digits), descriptors of 1..2 characters", "syntax length": "0..9999 symbolic"},
     "thorough": {"strings": "1..4 code points", "oids": "first numeric OID of length 3..5"},
